@@ -223,6 +223,7 @@ rsa_ok = z3.Function("rsa_ok", Val, ISq, B)        # PKCS#1 v1.5 decryption with
 rsa_pt = z3.Function("rsa_pt", Val, ISq, ISq)      # ... and yields this plaintext
 rsa_k = z3.Function("rsa_k", Val, I)               # modulus size in bytes
 keypair = z3.Function("keypair", Val, Val, B)      # (public, private) belong together
+xview = z3.Function("xview", ISq, I, ISq)          # decoded payload of the XorEncoded container at offset off
 lower_c = z3.Function("lower_c", I, I)
 upper_c = z3.Function("upper_c", I, I)
 seq_lower = z3.Function("seq_lower", ISq, ISq)
@@ -260,6 +261,14 @@ def lib_axioms():
         A.append(FA([v], fits_bytes(v, wd) == z3.And(0 <= v, v < 256 ** wd), patterns=[fits_bytes(v, wd)]))
         A.append(FA([v], fits_signed(v, wd) == (z3.And(-(256 ** wd // 2) <= v, v < 256 ** wd // 2) if wd else v == 0),
                     patterns=[fits_signed(v, wd)]))
+    # decoded view of a XorEncoded container (definition; the XorEncodedFile contracts are proved against
+    # the spec functions xplain_at / xkey_at, lemma xview_is_xplain links the two)
+    o2 = z3.Int("off_l")
+    A.append(FA([s, o2], ln(xview(s, o2)) == z3.If(ln(s) - (o2 + 8) > 0, ln(s) - (o2 + 8), 0), patterns=[xview(s, o2)]))
+    A.append(FA([s, o2, i], z3.Implies(z3.And(0 <= i, i < ln(xview(s, o2))),
+                                       z3.And(at(xview(s, o2), i) == bx(at(s, o2 + 8 + i), z3.If(i < 4, at(s, o2 + i), at(s, o2 + 4 + i))),
+                                              0 <= at(xview(s, o2), i), at(xview(s, o2), i) < 256)),
+                patterns=[at(xview(s, o2), i)]))
     # fixed-width value laws of int.from_bytes / int.to_bytes (unsigned)
     for wd in (1, 2, 3, 4, 8):
         for bo, fr, to in (("little", le_val, le_bytes), ("big", be_val, be_bytes)):
